@@ -12,7 +12,8 @@ heap pairs. The only builtin is `apply` (the immediate `.builtin id`, kind `.app
 the machine re-dispatches it, `CompileCorrect3Apply.lean`), so the `call` law (first-order builtins) is vacuous and
 every other law is proved. A closure is a procedure only behind a pointer (`tCallee_ptr`). A global slot that holds
 a builtin is read-only; the heap invariant `SRx` of `tD3g g` says that the builtin slots of `g` are still there
-(`tD3 = tD3g #[]`: no such slot).
+(`tD3 = tD3g #[]`: no such slot) and that every recorded closure environment exists. `envOK h e`: CLOSURE built `e`
+(the ghost list `cenvs`); nothing writes into such an environment (`Ext3.undefOK`). The laws: `CompileCorrect3ToyLaws.lean`.
 -/
 namespace Marwood.Lemmas.CompileCorrect3.Toy
 open Marwood Marwood.Vm Marwood.Lemmas.CompileCorrect Marwood.Lemmas.CompileCorrect2
@@ -30,6 +31,8 @@ structure THeap where
   /-- value cells: immediates, `.pair a d`, `.closure lam env` -/
   cells : Array VCell
   globals : Array VCell
+  /-- ghost: the environments CLOSURE built (nothing reads it) -/
+  cenvs : List Nat := []
 
 def tEnvGet (h : THeap) (e k : Nat) : Option VCell := (h.envs[e]?).bind (·[k]?)
 
@@ -95,7 +98,8 @@ def tops : HeapOps THeap where
     | none => .err .expectedType
     | some t =>
       .ok ({ h with envs := h.envs.push (t.srcs.map (tCloSlot h ep)),
-                    cells := h.cells.push (.closure lam h.envs.size) },
+                    cells := h.cells.push (.closure lam h.envs.size),
+                    cenvs := h.envs.size :: h.cenvs },
            .ptr h.cells.size)
   makeActivation h lam cenv bp st := match h.lams[lam]? with
     | some t =>
@@ -134,8 +138,8 @@ theorem keepB_nil (h : THeap) : KeepB #[] h := by
 theorem keepB_self (h : THeap) : KeepB h.globals h := fun _ _ x => x
 
 def tD3g (g : Array VCell) (final : List LambdaM) : RepData2 tops :=
-  { named := fun _ => False, slot := fun _ => 0, VR := tVRc3, SRx := fun h _ => KeepB g h,
-    vecElems := fun _ _ => none, envOK := fun _ _ => True,
+  { named := fun _ => False, slot := fun _ => 0, VR := tVRc3, vecElems := fun _ _ => none,
+    SRx := fun h _ => KeepB g h ∧ ∀ e ∈ h.cenvs, e < h.envs.size, envOK := fun h e => e ∈ h.cenvs,
     lamSrcs := fun h l => (h.lams[l]?).map (·.srcs), LM := id, final := final,
     setG := fun _ => False }
 
@@ -266,29 +270,41 @@ theorem tVR3_pair {g : Array VCell} {final : List LambdaM} {W : World} {h : THea
 
 /-! ## heap steps -/
 
+theorem tEnvGet_some_lt' {h : THeap} {e k : Nat} {v : VCell} (hv : tEnvGet h e k = some v) : e < h.envs.size := by
+  rcases Nat.lt_or_ge e h.envs.size with h1 | h1
+  · exact h1
+  · simp [tEnvGet, Array.getElem?_eq_none h1] at hv
+
 /-- a step that leaves code alone and keeps the value cells -/
 theorem ext_gen (g : Array VCell) (final : List LambdaM) (h h' : THeap) (S : Array Cell) (hl : h'.lams = h.lams)
     (hc : CellsExt h h')
     (hp : ∀ e k a b, tEnvGet h e k = some (.lexEnvPtr a b) → tEnvGet h' e k = some (.lexEnvPtr a b))
     (hv : ∀ e k v, tEnvGet h e k = some v → isEnvPtr v = false → ∃ v', tEnvGet h' e k = some v' ∧ isEnvPtr v' = false)
-    (hi : ∀ e k, InitM tops h e k → InitM tops h' e k) :
+    (hi : ∀ e k, InitM tops h e k → InitM tops h' e k)
+    (hco : ∀ e, e ∈ h.cenvs → e ∈ h'.cenvs) (hcb : ∀ e, e ∈ h'.cenvs → e ∈ h.cenvs ∨ h.envs.size ≤ e)
+    (hu : ∀ e k, e ∈ h.cenvs → tEnvGet h e k = some .undefined → tEnvGet h' e k = some .undefined) :
     Ext3 (tD3g g final) h S h' S := by
   refine ⟨⟨StoreExt.refl _, fun _ _ x => tVRc3_heap hc x,
     fun _ _ x => DatumAt.transport (D := (tD3g g final).toRepData) (vecElems := (tD3g g final).vecElems) (h := h) (h' := h')
       (S := S) (S' := S) (fun _ _ y => tVRc3_heap hc y) (fun _ _ _ y => tDeref_pair_ext hc y) (fun _ _ y => y) x,
-    fun l x => ?_, fun v l e x => ?_, fun _ _ => trivial, hp, hv⟩, fun _ _ _ y => tDeref_pair_ext hc y, hi⟩
+    fun l x => ?_, fun v l e x => ?_, hco, hp, hv⟩, fun _ _ _ y => tDeref_pair_ext hc y, hi, hu, fun e k v x y => ?_⟩
   · show (h'.lams[l]?).isSome = true ∧ (∀ o, (h'.lams[l]?).bind _ = (h.lams[l]?).bind _) ∧
       (h'.lams[l]?).map _ = (h.lams[l]?).map _ ∧ (h'.lams[l]?).map _ = (h.lams[l]?).map _
     rw [hl]
     exact ⟨x, fun _ => rfl, rfl, rfl⟩
   · obtain ⟨p, rfl⟩ := tCallee_ptr x
     exact callee_of_ptr (tDeref_clos_ext hc (callee_deref x))
+  · rcases hcb e y with h1 | h1
+    · exact h1
+    · exact absurd (tEnvGet_some_lt' x) (Nat.not_lt.mpr h1)
 
 /-- … and every environment slot -/
 theorem ext_frame (g : Array VCell) (final : List LambdaM) (h h' : THeap) (S : Array Cell) (hl : h'.lams = h.lams)
-    (hc : CellsExt h h') (he : ∀ e k v, tEnvGet h e k = some v → tEnvGet h' e k = some v) :
+    (hc : CellsExt h h') (he : ∀ e k v, tEnvGet h e k = some v → tEnvGet h' e k = some v)
+    (hco : ∀ e, e ∈ h.cenvs → e ∈ h'.cenvs) (hcb : ∀ e, e ∈ h'.cenvs → e ∈ h.cenvs ∨ h.envs.size ≤ e) :
     Ext3 (tD3g g final) h S h' S := by
-  refine ext_gen g final h h' S hl hc (fun e k a b x => he _ _ _ x) (fun e k v x y => ⟨v, he _ _ _ x, y⟩) ?_
+  refine ext_gen g final h h' S hl hc (fun e k a b x => he _ _ _ x) (fun e k v x y => ⟨v, he _ _ _ x, y⟩) ?_ hco hcb
+    (fun e k _ x => he _ _ _ x)
   intro e k ⟨v, x, y, z⟩
   exact ⟨v, he _ _ _ x, y, z⟩
 
@@ -303,8 +319,8 @@ theorem push_old {α : Type} (a : Array α) (x : α) (i : Nat) (v : α) (h : a[i
 theorem push_ne {α : Type} (a : Array α) (x : α) (i : Nat) (h : i ≠ a.size) : (a.push x)[i]? = a[i]? := by
   simp [Array.getElem?_push, h]
 
-theorem tEnvGet_push_ne (h : THeap) (ss : List VCell) (c : Array VCell) (e k : Nat) (he : e ≠ h.envs.size) :
-    tEnvGet { h with envs := h.envs.push ss, cells := c } e k = tEnvGet h e k := by
+theorem tEnvGet_push_ne (h : THeap) (ss : List VCell) (c : Array VCell) (cs : List Nat) (e k : Nat)
+    (he : e ≠ h.envs.size) : tEnvGet { h with envs := h.envs.push ss, cells := c, cenvs := cs } e k = tEnvGet h e k := by
   unfold tEnvGet
   show ((h.envs.push ss)[e]?).bind _ = _
   rw [push_ne _ _ _ he]
@@ -325,10 +341,12 @@ theorem tDeref_alloc (h : THeap) (c : VCell) : tDeref (tAlloc h c) (.ptr h.cells
 
 /-- allocation of a value cell -/
 theorem step_alloc (g : Array VCell) (final : List LambdaM) (h : THeap) (S : Array Cell) (c : VCell)
-    (hs : KeepB g h) : Step3 (tD3g g final) h S (tAlloc h c) :=
-  ⟨ext_frame g final h _ S rfl (cellsExt_alloc h c) (fun _ _ _ x => x), hs, fun _ _ => rfl, fun _ => rfl⟩
+    (hs : (tD3g g final).SRx h S) : Step3 (tD3g g final) h S (tAlloc h c) :=
+  ⟨ext_frame g final h _ S rfl (cellsExt_alloc h c) (fun _ _ _ x => x) (fun _ x => x) (fun _ x => .inl x), hs,
+    fun _ _ => rfl, fun _ => rfl⟩
 
-theorem step_refl (g : Array VCell) (final : List LambdaM) (h : THeap) (S : Array Cell) (hs : KeepB g h) :
+theorem step_refl (g : Array VCell) (final : List LambdaM) (h : THeap) (S : Array Cell)
+    (hs : (tD3g g final).SRx h S) :
     Step3 (tD3g g final) h S h :=
   ⟨Ext3.refl h S, hs, fun _ _ => rfl, fun _ => rfl⟩
 
@@ -339,251 +357,5 @@ theorem tPut_cases (h : THeap) (v : VCell) :
   cases v <;> first
     | exact .inr ⟨fun _ => rfl, (by intro p e; cases e), rfl⟩
     | exact .inl ⟨_, rfl, rfl⟩
-
-/-! ## the laws -/
-
-theorem laws3g (g : Array VCell) (final : List LambdaM) : Laws3 (tD3g g final) where
-  slot_inj := by intro a b h; cases h
-  truth := by
-    intro h S v w hv
-    show tDeref h v = .bool false ↔ _
-    cases hv with
-    | base hb =>
-      have hb' : tVR (tDeref h v) w := hb
-      cases w <;> simp only [tVR] at hb' <;> first
-        | (rw [hb']; simp)
-        | cases hb'
-    | pair hs hd _ _ =>
-      have : tDeref h v = .pair _ _ := hd
-      rw [this]
-      exact ⟨(fun e => by cases e), (fun e => by cases e)⟩
-    | vec hs hv' _ => cases hv'
-  ne_undefined := by
-    intro h S v w hv e0; subst e0
-    cases hv with
-    | base hb => exact tVR_undefined hb
-    | pair hs hd _ _ => cases hd
-    | vec hs hv' _ => cases hv'
-  not_envptr := by
-    intro h S v w hv
-    cases v <;> first
-      | rfl
-      | (exfalso
-         cases hv with
-         | base hb => exact tVR_envptr hb
-         | pair hs hd _ _ => cases hd
-         | vec hs hv' _ => cases hv')
-  void := fun _ _ => .base rfl
-  nil := fun _ _ => .base rfl
-  vr_no_closure := by
-    intro h S v a b c e hv
-    cases hv with
-    | base hb => exact hb
-  vr_no_redisp := by
-    intro h S v p hv
-    cases hv with
-    | base hb => exact absurd hb (fun x => x)
-  clos_true := by
-    intro h v l e hc
-    show tDeref h v ≠ _
-    rw [callee_deref hc]
-    intro e0; cases e0
-  clos_ne_undefined := by
-    intro h v l e hc e0; subst e0
-    cases callee_deref hc
-  clos_not_envptr := by
-    intro h v l e hc
-    cases v <;> first | rfl | cases callee_deref hc
-  pair_ne_undefined := by
-    intro h v a d hp e0; subst e0
-    cases hp
-  pair_not_envptr := by
-    intro h v a d hp
-    cases v <;> first | rfl | cases hp
-  vr_pair := fun _ _ _ _ _ _ _ _ hs hd h1 h2 => .pair hs hd h1 h2
-  vr_vec := fun _ _ _ _ _ _ hs hv hall => .vec hs hv hall
-  vr_store := fun _ _ _ _ _ hx x => tVRc3_move hx.keep x
-  srx_store := fun _ _ _ _ x => x
-  glob_get_put := by intro h S x v m _ hn; cases hn
-  globPut_ext := by
-    intro h S n u hs
-    show Ext3 _ h S (if isBuiltinCell (h.globals[n]?.getD .undefined) then h
-        else { h with globals := h.globals.setIfInBounds n u }) S ∧
-      KeepB g (if isBuiltinCell (h.globals[n]?.getD .undefined) then h
-        else { h with globals := h.globals.setIfInBounds n u }) ∧
-      ∀ e k, tEnvGet (if isBuiltinCell (h.globals[n]?.getD .undefined) then h
-        else { h with globals := h.globals.setIfInBounds n u }) e k = tEnvGet h e k
-    by_cases hb : isBuiltinCell (h.globals[n]?.getD .undefined) = true
-    · rw [if_pos hb]
-      exact ⟨Ext3.refl h S, hs, fun _ _ => rfl⟩
-    · rw [if_neg hb]
-      refine ⟨ext_frame g final h _ S rfl (CellsExt.refl _) (fun _ _ _ x => x), ?_, fun _ _ => rfl⟩
-      intro m id hm
-      have hk := hs m id hm
-      show (h.globals.setIfInBounds n u)[m]? = _
-      have hne : n ≠ m := by
-        intro e; subst e
-        rw [hk] at hb
-        exact hb rfl
-      rw [Array.getElem?_setIfInBounds_ne hne]
-      exact hk
-  envPut_ok := by
-    intro h S e k old u hs hget hold hu hu2
-    have hget' : tEnvGet h e k = some old := hget
-    unfold tEnvGet at hget'
-    cases hes : h.envs[e]? with
-    | none => rw [hes] at hget'; cases hget'
-    | some ss =>
-      rw [hes] at hget'
-      have hss : ss[k]? = some old := hget'
-      have hk : k < ss.length := by
-        rcases Nat.lt_or_ge k ss.length with h1 | h1
-        · exact h1
-        · rw [List.getElem?_eq_none h1] at hss; cases hss
-      have helt : e < h.envs.size := by
-        rcases Nat.lt_or_ge e h.envs.size with h1 | h1
-        · exact h1
-        · simp [Array.getElem?_eq_none h1] at hes
-      let h' : THeap := { h with envs := h.envs.setIfInBounds e (ss.set k u) }
-      have hgetAll : ∀ e' k', tEnvGet h' e' k' = if e' = e ∧ k' = k then some u else tEnvGet h e' k' := by
-        intro e' k'
-        unfold tEnvGet
-        show ((h.envs.setIfInBounds e (ss.set k u))[e']?).bind _ = _
-        by_cases he : e' = e
-        · subst he
-          simp only [Array.getElem?_setIfInBounds, helt, if_true, Option.bind, hes, true_and]
-          by_cases hk' : k' = k
-          · subst hk'; simp [hk]
-          · have : ¬ k = k' := fun x => hk' x.symm
-            simp [hk', this]
-        · have : ¬ e = e' := fun x => he x.symm
-          simp [he, this]
-      refine ⟨h', ?_, ?_, hs, hgetAll, fun _ => rfl⟩
-      · show (match h.envs[e]? with | some ss => _ | none => none) = _
-        rw [hes]; simp only [hk, if_true]; rfl
-      · refine ext_gen g final h h' S rfl (fun _ _ x => x) ?_ ?_ ?_
-        · intro e' k' a b hx
-          rw [hgetAll]
-          by_cases hsame : e' = e ∧ k' = k
-          · obtain ⟨rfl, rfl⟩ := hsame
-            have hget2 : tEnvGet h e' k' = some old := hget
-            rw [hget2] at hx; cases hx; cases hold
-          · simp [hsame, hx]
-        · intro e' k' v hx hv
-          rw [hgetAll]
-          by_cases hsame : e' = e ∧ k' = k
-          · exact ⟨u, by simp [hsame], hu⟩
-          · exact ⟨v, by simp [hsame, hx], hv⟩
-        · intro e' k' ⟨v, hx, hv1, hv2⟩
-          have hx' : tEnvGet h e' k' = some v := hx
-          show ∃ v, tEnvGet h' e' k' = some v ∧ _
-          rw [hgetAll]
-          by_cases hsame : e' = e ∧ k' = k
-          · exact ⟨u, by simp [hsame], hu, hu2⟩
-          · exact ⟨v, by simp [hsame, hx'], hv1, hv2⟩
-  closure_ok := by
-    intro h S lam ep bp st srcs hs _ hsrc _ _
-    have hsrc' : (h.lams[lam]?).map (·.srcs) = some srcs := hsrc
-    cases hl : h.lams[lam]? with
-    | none => rw [hl] at hsrc'; cases hsrc'
-    | some t =>
-      rw [hl] at hsrc'
-      have ht : t.srcs = srcs := by simpa using hsrc'
-      let h' : THeap := { h with envs := h.envs.push (t.srcs.map (tCloSlot h ep)),
-                                 cells := h.cells.push (.closure lam h.envs.size) }
-      refine ⟨h', h.cells.size, h.envs.size, ?_, ?_, tEnvGet_fresh h, ?_, ?_, fun _ => rfl, ?_, hs, trivial⟩
-      · show (match h.lams[lam]? with | none => _ | some t => _) = _
-        rw [hl]
-      · show tCalleeCell ((h.cells.push (VCell.closure lam h.envs.size))[h.cells.size]?.getD .undefined) = _
-        simp [tCalleeCell]
-      · intro j src hj
-        show tEnvGet h' h.envs.size j = _
-        unfold tEnvGet
-        show ((h.envs.push _)[h.envs.size]?).bind _ = _
-        simp only [Array.getElem?_push_size, Option.bind, List.getElem?_map, ht, hj, Option.map]
-        rw [tCloSlot_eq]
-      · intro e k he
-        exact tEnvGet_push_ne h _ _ e k he
-      · refine ext_frame g final h h' S rfl (fun p v x => push_old _ _ _ _ x) ?_
-        intro e k v hx
-        rw [show tEnvGet h' e k = tEnvGet h e k from tEnvGet_push_ne h _ _ e k (tEnvGet_some_lt hx)]; exact hx
-  activation_ok := by
-    intro h S lam cenv bp st srcs nargs hs _ hsrc hinfo _ _ _
-    have hsrc' : (h.lams[lam]?).map (·.srcs) = some srcs := hsrc
-    have hinfo' : (h.lams[lam]?).map (fun t => (⟨t.nargs⟩ : LambdaInfo)) = some ⟨nargs⟩ := hinfo
-    cases hl : h.lams[lam]? with
-    | none => rw [hl] at hsrc'; cases hsrc'
-    | some t =>
-      rw [hl] at hsrc' hinfo'
-      have ht : t.srcs = srcs := by simpa using hsrc'
-      have hn : t.nargs = nargs := by
-        have : (⟨t.nargs⟩ : LambdaInfo) = ⟨nargs⟩ := by simpa using hinfo'
-        injection this
-      let olds := (h.envs[cenv]?).getD []
-      let slots := t.srcs.zipIdx.map fun (src, j) => tActSlot cenv bp t.nargs st olds j src
-      let h' : THeap := { h with envs := h.envs.push slots }
-      have hslot : ∀ j src, srcs[j]? = some src →
-          tEnvGet h' h.envs.size j = some (tActSlot cenv bp nargs st olds j src) := by
-        intro j src hj
-        unfold tEnvGet
-        show ((h.envs.push slots)[h.envs.size]?).bind _ = _
-        simp only [Array.getElem?_push_size, Option.bind]
-        show slots[j]? = _
-        simp only [slots, List.getElem?_map, List.getElem?_zipIdx, ht, hj, Option.map, hn, Nat.zero_add]
-      have hold : ∀ j, tEnvGet h cenv j = olds[j]? := by
-        intro j; unfold tEnvGet
-        show (h.envs[cenv]?).bind _ = ((h.envs[cenv]?).getD [])[j]?
-        cases h.envs[cenv]? <;> simp
-      refine ⟨h', h.envs.size, ?_, tEnvGet_fresh h, ?_, ?_, ?_, ?_, fun _ => rfl, ?_, hs⟩
-      · show (match h.lams[lam]? with | some t => _ | none => _) = _
-        rw [hl]
-      · intro j i v hj hv
-        rw [show tops.envGet h' h.envs.size j = tEnvGet h' h.envs.size j from rfl, hslot j _ hj]
-        simp [tActSlot, hv]
-      · intro j hj
-        rw [show tops.envGet h' h.envs.size j = tEnvGet h' h.envs.size j from rfl, hslot j _ hj]
-        rfl
-      · intro j k hj
-        rw [show tops.envGet h' h.envs.size j = tEnvGet h' h.envs.size j from rfl, hslot j _ hj]
-        show some (actCaptured cenv j olds[j]?) = some (actCaptured cenv j (tEnvGet h cenv j))
-        rw [hold]
-      · intro e k he
-        exact tEnvGet_push_ne h _ h.cells e k he
-      · refine ext_frame g final h h' S rfl (fun _ _ x => x) ?_
-        intro e k v hx
-        rw [show tEnvGet h' e k = tEnvGet h e k from tEnvGet_push_ne h _ h.cells e k (tEnvGet_some_lt hx)]; exact hx
-  put_val := by
-    intro h S v hs
-    rcases tPut_cases h v with ⟨p, rfl, hp⟩ | ⟨hd, hnp, hp⟩
-    · exact ⟨h, p, hp, step_refl g final h S hs, fun _ x => x, fun _ _ x => x, fun _ _ x => x⟩
-    · have hda : tDeref (tAlloc h v) (.ptr h.cells.size) = tDeref h v := by rw [tDeref_alloc, hd]
-      refine ⟨tAlloc h v, h.cells.size, hp, step_alloc g final h S v hs, ?_, ?_, ?_⟩
-      · intro w r
-        cases r with
-        | base hb =>
-          refine .base ?_
-          show tVR (tDeref (tAlloc h v) (.ptr h.cells.size)) w
-          rw [hda]; exact hb
-        | pair hs hd' h1 h2 =>
-          refine .pair hs ?_ (tVRc3_heap (cellsExt_alloc h v) h1) (tVRc3_heap (cellsExt_alloc h v) h2)
-          show tDeref (tAlloc h v) (.ptr h.cells.size) = _
-          rw [hda]; exact hd'
-        | vec hs hv' _ => cases hv'
-      · intro l e hc
-        obtain ⟨p, rfl⟩ := tCallee_ptr hc
-        exact absurd rfl (hnp p)
-      · intro x y hxy
-        show tDeref (tAlloc h v) (.ptr h.cells.size) = _
-        rw [hda]; exact hxy
-  put_pair := by
-    intro h S a d hs
-    exact ⟨tAlloc h (.pair a d), h.cells.size, rfl, step_alloc g final h S _ hs, tDeref_alloc h _⟩
-  call := by
-    intro n W h σ vf p vs ws w σ' _ hvf
-    cases hvf with
-    | base hb => cases hb
-
-/-- the laws for the heap without builtin slots -/
-theorem laws3 (final : List LambdaM) : Laws3 (tD3 final) := laws3g #[] final
 
 end Marwood.Lemmas.CompileCorrect3.Toy
